@@ -94,6 +94,13 @@ def run_swap_cases(sh, select, tag, crash_points=False, nested_cache=False, shar
             if judge(sr, 'prior'):
                 continue
             apply_ext(w, ext)
+            if fail == 'ok':
+                # clean right after the external step (recorded paths replaced by the other kind)
+                tokc = w.save()
+                c0 = w.clean(build_name=None if main == 'deeper' else '__same__')
+                sh.count('swap_clean_probes')
+                judge(c0, 'clean-after-ext')
+                w.restore(tokc)
             plans = [None]
             tok = None
             if crash_points and fail == 'ok':
